@@ -4,7 +4,7 @@ box; to_mask(center) = sampled MEMBER at pixel centres on that box).  Compound r
 so one proof covers every operand class and every nesting depth."""
 import vprim
 import numpy as np
-from regions.core.core import PixelRegion
+from regions.core.core import PixelRegion, SkyRegion
 from regions.core.bounding_box import RegionBoundingBox
 from regions.core.mask import RegionMask
 from regions.core.pixcoord import PixCoord
@@ -60,3 +60,31 @@ class AnyPixelRegion(PixelRegion):
     @property
     def area(self):
         return vprim.uf('area', 'real', self.rid)
+
+
+def member_sky(rid, lon, lat):
+    return vprim.uf('member_sky', 'bool', rid, lon, lat)
+
+
+class AnySkyRegion(SkyRegion):
+    """any sky region: abstract membership MEMBER_SKY(id, lon, lat) of the queried position, complemented when excluded"""
+    _params = ('rid',)
+
+    def __init__(self, rid, meta=None, visual=None):
+        self.rid = rid
+        self.meta = meta
+        self.visual = visual
+
+    def contains(self, skycoord, wcs):
+        rid = self.rid
+        lon, lat = skycoord.spherical.lon.to_value('rad'), skycoord.spherical.lat.to_value('rad')
+        if vprim.is_array(lon):
+            inreg = vprim.arr_like(lon, lambda *idx: member_sky(rid, vprim.arr_at(lon, *idx), vprim.arr_at(lat, *idx)), 'bool')
+        else:
+            inreg = member_sky(rid, lon, lat)
+        if self.meta.get('include', True):
+            return inreg
+        return np.logical_not(inreg)
+
+    def to_pixel(self, wcs):
+        vprim.unsupported('abstract to_pixel')
